@@ -90,3 +90,14 @@ package main
 //@   modifies *
 //@   loop 1
 //@     invariant wf: forall k int :: 0 <= k && k < len(ranges) ==> ranges[k].Low >= 0 && (ranges[k].Hi == 0 || ranges[k].Hi > ranges[k].Low)
+
+// Loaders: numbering resumes from the stored high-water mark, which (recovery invariant of messagesMapper.Save)
+// is at least every stored message number.
+//@ func initTopicGrp(t *Topic) (err error)
+//@   requires [C01] t != nil && rowMax[t.name] <= hwm[t.name]
+//@   ensures [C01] lastID_restored: err == nil ==> t.lastID == hwm[t.name] && rowMax[t.name] <= t.lastID
+//@   modifies *
+//@ func initTopicSys(t *Topic) (err error)
+//@   requires [C01] t != nil && rowMax[t.name] <= hwm[t.name]
+//@   ensures [C01] lastID_restored: err == nil ==> t.lastID == hwm[t.name] && rowMax[t.name] <= t.lastID
+//@   modifies *
